@@ -405,11 +405,14 @@ def setup():
         if not ok:
             log('setup: translator failed: ' + msg)
             return 2
-        ok, txt = lake_build([], timeout=7000)
-        if not ok:
-            log(txt[-5000:])
-            return 2
-        ok, txt = lake_build(['geodrv'])
+        import propdefs
+        targets = ['geodrv']
+        for pid, P in propdefs.PROPS.items():
+            if P.get('module'):
+                targets.append(P['module'])
+            targets += P.get('extra_modules', [])
+            targets += P.get('drivers', [])
+        ok, txt = lake_build(sorted(set(targets)), timeout=7000)
         if not ok:
             log(txt[-5000:])
             return 2
